@@ -639,7 +639,7 @@ class FnAnalysis:
                 self.eff_rebind(recv, e, f'{norm_text(f, 60)}(...)')
                 if m in ('extend',) and args and any(a.startswith('C:') for a in args[0].alias):
                     pass
-            elif any(a.startswith('P:') for a in recv.alias) and m != 'pop':
+            elif any(a.startswith('P:') for a in recv.alias):
                 for a in recv.alias:
                     if a.startswith('P:'):
                         self.summary.rebinds.setdefault(tpath(a) + '[]', set()).add(self.site(e, f'{norm_text(f, 60)}(...) on a list parameter'))
